@@ -372,7 +372,12 @@ def pipeline(path, seed, runs, full):
     e2e, rep = {}, []
     # --- (b) seeded pipeline
     random.seed(seed)
+    b_before = [[float(v).hex() for v in row] for row in lex.bscorer.matrix]
     lex.get_scorer(runs=runs)
+    if [[float(v).hex() for v in row] for row in lex.bscorer.matrix] != b_before:
+        rep.append({"analysis": "get_scorer changed the basic scorer (bscorer) that sca alignments on the same object read",
+                    "args": {"runs": runs}, "first": b_before,
+                    "second": [[float(v).hex() for v in row] for row in lex.bscorer.matrix]})
     tab = {}
     b_ids, c_ids = _matrix_ids(tab, lex.bscorer.matrix), _matrix_ids(tab, lex.cscorer.matrix)
     out["kernels"]["scorer"] = {"chars": list(lex.chars), "fkeys": [list(lex.freqs[t]) for t in lex.cols],
